@@ -483,6 +483,9 @@ def run(ck: Checker) -> None:
     ck.guard("R-IDENT-RETURN", lambda: r_ident_return(ck))
     ck.guard("R-TRANSFORM-PATH", lambda: r_rule_in_iterator(ck))
     ck.guard("R-DISPATCH", lambda: r_rule_exceptions_pass(ck))
+    from . import state_rules as S9
+    ck.guard("R-TRANSFORM-PATH", lambda: S9.r_returns_shared(ck, "R-TRANSFORM-PATH", (VIS,)))
+    ck.guard("R-REINSTALL", lambda: T.r_reinstall(ck))  # the children that are transformed are the ones the class itself declares
     from . import state_rules as S_
     ck.guard("R-TRANSFORM-PATH", lambda: S_.r_unstable_key(ck, "R-TRANSFORM-PATH", [(NODE, "ASTNode.accept"), (VIS, "ASTVisitor"), (VIS, "ASTTransformVisitor")], "a transformation looks at the tree it is given"))
     ck.guard("R-PRESENCE", lambda: T.r_presence(ck))
